@@ -4,7 +4,7 @@
 //! through the real interpreter step against the reference rows, with snapshots
 //! (GRAPH.DUP) and history reads.
 
-use crate::core::{guarded, panic_class, step_once, with_instr, Ctx, Outcome, Real, Verdict};
+use crate::core::{guarded, live_history, panic_class, step_once, with_instr, Ctx, LiveStep, Outcome, Real, Verdict};
 use crate::model::{g_of, G, M};
 use crate::refmodel::{self, graph_sets_equal};
 use pushr::push::graph::Graph;
@@ -353,10 +353,10 @@ pub fn instr(ctx: &mut Ctx) {
     let depth_max = if ctx.tier_thorough { 8 } else { 6 };
     // state: graph stack (model, verified equal to the real one after each step) + next node id
     let mut seen: HashSet<String> = HashSet::new();
-    let mut frontier: VecDeque<(Vec<G>, usize, Vec<String>)> = VecDeque::new();
-    frontier.push_back((vec![], 1, vec![]));
+    let mut frontier: VecDeque<(Vec<G>, usize, Vec<String>, Vec<Act>)> = VecDeque::new();
+    frontier.push_back((vec![], 1, vec![], vec![]));
     seen.insert(String::new());
-    while let Some((graphs, next, hist)) = frontier.pop_front() {
+    while let Some((graphs, next, hist, ahist)) = frontier.pop_front() {
         ctx.states += 1;
         ctx.max_depth = ctx.max_depth.max(hist.len() as u64);
         let mut ids: Vec<i32> = (1..next as i32).collect();
@@ -397,6 +397,55 @@ pub fn instr(ctx: &mut Ctx) {
                     }
                 }
             }
+            // the same history on ONE live state (the graph stack is never rebuilt): same graphs, same answers.
+            // Done for every transition of short histories and for every transition that reaches a new state.
+            if matches!(verdict, Verdict::Pass) {
+                if let Outcome::Ok(g) = &out {
+                    let nnext = if a.name == "GRAPH.NODE*ADD" && !graphs.is_empty() { next + 1 } else { next };
+                    let newstate = !seen.contains(&format!("{}#{}", graphs_key(&g.graphs), nnext));
+                    if hist.len() <= 2 || newstate {
+                        let steps: Vec<LiveStep> = ahist
+                            .iter()
+                            .chain(std::iter::once(&a))
+                            .map(|x| {
+                                let x = x.clone();
+                                LiveStep {
+                                    pre: Box::new(move |st| {
+                                        let mut m = M::default();
+                                        m.i = x.i.clone();
+                                        m.i.push(77);
+                                        m.f = x.f.clone();
+                                        m.iv = x.iv.clone();
+                                        m.bv = x.bv.clone();
+                                        let t = crate::model::build(&m);
+                                        st.int_stack = t.int_stack;
+                                        st.float_stack = t.float_stack;
+                                        st.int_vector_stack = t.int_vector_stack;
+                                        st.bool_vector_stack = t.bool_vector_stack;
+                                    }),
+                                    push: Some(crate::model::Tree::ins(x.name)),
+                                }
+                            })
+                            .collect();
+                        refmodel::set_next_node_id(1);
+                        let live = live_history(&mut real, &M::default(), &steps);
+                        match live {
+                            Outcome::Ok(l) => {
+                                let same = graphs_key(&l.graphs) == graphs_key(&g.graphs) && l.i == g.i && l.iv.len() == g.iv.len() && l.f.len() == g.f.len() && l.f.iter().zip(&g.f).all(|(x, y)| x.to_bits() == y.to_bits()) && l.iv.iter().zip(&g.iv).all(|(x, y)| {
+                                    let (mut x, mut y) = (x.clone(), y.clone());
+                                    x.sort();
+                                    y.sort();
+                                    x == y
+                                });
+                                if !same {
+                                    verdict = Verdict::fail(a.name, "live-history-differs", format!("executed on one live state the history ends in graphs {{{}}} I={:?} IV={:?}, step by step from rebuilt states in {{{}}} I={:?} IV={:?}", graphs_key(&l.graphs), l.i, l.iv, graphs_key(&g.graphs), g.i, g.iv));
+                                }
+                            }
+                            Outcome::Panic(p) => verdict = Verdict::fail(a.name, &panic_class(&p), format!("live history: {}", p)),
+                        }
+                    }
+                }
+            }
             refmodel::set_next_node_id(refmodel::NEXT_NODE_ID);
             let okey = format!("{}|{}", a.name, out.key());
             let failed = !matches!(verdict, Verdict::Pass | Verdict::Known(_));
@@ -420,7 +469,9 @@ pub fn instr(ctx: &mut Ctx) {
                     seen.insert(k);
                     let mut h = hist.clone();
                     h.push(format!("{} {:?}{:?}", a.name, a.i, a.f));
-                    frontier.push_back((g.graphs, nnext, h));
+                    let mut ah = ahist.clone();
+                    ah.push(a.clone());
+                    frontier.push_back((g.graphs, nnext, h, ah));
                 }
             }
         }
